@@ -2329,6 +2329,9 @@ class Statements(Sequence, Immutable):
         """
         g = self._create_dependency_graph()
         index = self.index(statement)
+        if index not in g:
+            # NOTE: Statements without any dependency relation are not in the graph
+            return Statements()
         succ = sorted(list(g.successors(index)))
         stats = Statements()
         stats._statements = [self[i] for i in succ]
